@@ -81,10 +81,14 @@ def vars_specs() -> list[Spec]:
              [("self.choices", "choices", LIST(C)), ("value", "value", X)], C, fallible=True, attrs={"len_as_Z": True}),
         Spec("gen_perm_correct", m, "PermutationVariable", "correct",
              [("value", "value", LIST(X)), ("pi!", "pi", LIST(NAT))], LIST(NAT), attrs={"argsort_of": ("value", "pi")}),
+        Spec("gen_perm_labels", m, "PermutationVariable", "__init__", [("self.items", "items", LIST("L"))], RES(LIST("L")),
+             attrs={"extract_assign": "self._labels", "only_after": [],
+                    "stmts_before": ["super().__init__(**kwargs)", "self._label_encoder = LabelEncoder()", "self._label_encoder.fit(self.items)"],
+                    "idioms": {"sorted(self.items, key=lambda x: self._label_encoder.transform([x])[0])":
+                               ("(sorted_by_opt_key L (fun x_ => obind (enc_transform [x_]) (fun r_ => nth_error r_ 0)) {self.items})", RES(LIST("L")))}}),
         Spec("gen_perm_decode", m, "PermutationVariable", "decode",
-             [("value", "value", LIST(X)), ("pi!", "pi", LIST(NAT))], LIST("L"),
-             attrs={"argsort_of": ("value", "pi"),
-                    "calls": {"self._label_encoder.inverse_transform": lambda arg: (f"(inverse_transform {arg(0)[0]})", LIST("L"))}}),
+             [("self._labels", "labels", LIST("L")), ("value", "value", LIST(X)), ("pi!", "pi", LIST(NAT))], LIST("L"), fallible=True,
+             attrs={"argsort_of": ("value", "pi")}),
         Spec("gen_binary_validate", m, "BinaryVariable", "validate_n_vars", [("v", "v", ZT)], ZT, fallible=True,
              attrs={"len_as_Z": True}, skip_params=("self", "cls")),
     ]
@@ -100,6 +104,9 @@ def label_specs() -> list[Spec]:
              attrs={"extract_assign": "self.__unique_labels__", "only_after": AFTER, "idioms": {SORT: ("(py_sorted_set L eqb leb {y})", LIST(L))}}),
         Spec("gen_le_fit_index", m, "LabelEncoder", "fit", [("y", "y", LIST(L)), ("self.__unique_labels__", "labels", LIST(L))], DICT(L, NAT),
              attrs={"extract_assign": "self.__label_to_index__", "assigned_before": ("self.__unique_labels__",), "only_after": ["return self"], "label_eqb": ("eqb", L)}),
+        Spec("gen_le_transform", m, "LabelEncoder", "transform",
+             [("self.__unique_labels__", "labels", OPT(LIST(L))), ("self.__label_to_index__", "index", DICT(L, NAT)), ("y", "y", LIST(L))], LIST(NAT), fallible=True,
+             attrs={"idioms": {"self.__set_y__(y)": ("{y}", LIST(L))}, "label_eqb": ("eqb", L)}),
         Spec("gen_le_inverse_transform", m, "LabelEncoder", "inverse_transform",
              [("self.__unique_labels__", "labels", OPT(LIST(L))), ("self.__label_to_index__", "index", DICT(L, NAT)), ("y", "y", LIST(NAT))], LIST(L), fallible=True,
              attrs={"idioms": {"self.__set_y__(y)": ("{y}", LIST(NAT))}, "str_consts": {"unknown": ("unknown", L)}}),
@@ -335,9 +342,9 @@ def regenerate(repo: Path) -> dict:
     emit_group(repo, "GenSelect.v", imports,
                "Variable A : Type.\nVariable cost : A -> xnum.\nVariable copy : A -> A.\n"
                "Variable pool_perm : list A -> list A.\nVariable init_draw : nat -> A.\n", select_specs(), status)
-    emit_group(repo, "GenVars.v", "From Coq Require Import List ZArith Bool Arith.\nFrom PV Require Import Xnum Select PyLib Argsort.\n"
+    emit_group(repo, "GenVars.v", "From Coq Require Import List ZArith Bool Arith.\nFrom PV Require Import Xnum Select PyLib Argsort Labels.\n"
                "Import ListNotations.\n",
-               "Variable C : Type.\nVariable L : Type.\nVariable inverse_transform : list nat -> list L.\n", vars_specs(), status)
+               "Variable C : Type.\nVariable L : Type.\nVariable enc_transform : list L -> option (list nat).\n", vars_specs(), status)
     emit_group(repo, "GenStop.v", "From Coq Require Import List ZArith Bool Arith.\nFrom PV Require Import Xnum Select PyLib Loop.\n"
                "Import ListNotations.\n",
                "Variable F : Type.\nVariables (fsub : F -> F -> F) (fabs : F -> F) (fltb fleb : F -> F -> bool) (fzero fone : F).\n"
